@@ -274,24 +274,26 @@ func vfc43NewSpace(seed int64, thorough bool) *vfc43Space {
 	strs := vfc43Strings([]string{"a", ":", "1"}, maxLen)
 	strs = append(strs, "-", "a:-", "1:1:1:1", "[]", ":[]", "a,1", "true", "a/b", ".", "..", "a\\b", "é:", "a|b")
 	ns := len(strs)
+	strs2 := append(vfc43Strings([]string{"a", ":", "1"}, maxLen-1), "-", "a:-", "[]", ":[]", "a,1", "true", "é:", "a|b", "1:1:1")
+	ns2 := len(strs2)
 	steps := []int64{1, 11, 60000}
 	sp := &vfc43Space{seed: uint64(seed)}
 	sp.blocks = []vfc43Block{
 		{name: "range:tenant x query x shard x step x engine", dims: []int{ns, ns, 3, 2, 4}, mk: func(ix []int) vfc43T {
 			return vfc43T{Kind: "range", Tenant: strs[ix[0]], Query: strs[ix[1]], Shard: vfc43ShardOpts[ix[2]], Step: steps[ix[3]], Engine: vfc43EngineOpts[ix[4]], SplitMs: 1, Start: 1}
 		}},
-		{name: "range:query x step x split x bucket x resolution x shard x lookback x engine", dims: []int{40, 3, 2, 3, 4, 4, 3, 4}, mk: func(ix []int) vfc43T {
+		{name: "range:query x step x split x bucket x resolution x shard x lookback x engine", dims: []int{ns2, 3, 2, 3, 4, 4, 3, 4}, mk: func(ix []int) vfc43T {
 			si := []int64{1, 11}[ix[2]]
-			return vfc43T{Kind: "range", Tenant: "a", Query: strs[ix[0]], Step: steps[ix[1]], SplitMs: si, Start: []int64{0, 1, 11}[ix[3]] * si,
+			return vfc43T{Kind: "range", Tenant: "a", Query: strs2[ix[0]], Step: steps[ix[1]], SplitMs: si, Start: []int64{0, 1, 11}[ix[3]] * si,
 				MSR: []int64{0, 299999, 300000, 3600000}[ix[4]], Shard: vfc43ShardOpts[ix[5]], Lookback: []int64{0, 1, 11}[ix[6]], Engine: vfc43EngineOpts[ix[7]]}
 		}},
 		{name: "range:engine x partial x replica x analyze x lookback x shard", dims: []int{40, 2, len(vfc43ReplicaOpts), 2, 2, 3}, mk: func(ix []int) vfc43T {
 			return vfc43T{Kind: "range", Tenant: "a", Query: "a", Step: 1, SplitMs: 1, Start: 1, Engine: strs[ix[0]], Partial: ix[1] == 1, Replica: vfc43ReplicaOpts[ix[2]],
 				Analyze: ix[3] == 1, Lookback: int64(ix[4]), Shard: vfc43ShardOpts[ix[5]]}
 		}},
-		{name: "labels:tenant x label x matchers x split x bucket x partial", dims: []int{ns, ns, 6, 2, 2, 2}, mk: func(ix []int) vfc43T {
+		{name: "labels:tenant x label x matchers x split x bucket x partial", dims: []int{ns, ns2, 6, 2, 2, 2}, mk: func(ix []int) vfc43T {
 			si := []int64{1, 11}[ix[3]]
-			return vfc43T{Kind: "labels", Tenant: strs[ix[0]], Label: strs[ix[1]], Matchers: vfc43MatcherOpts[ix[2]], SplitMs: si, Start: int64(ix[4]) * si, Partial: ix[5] == 1}
+			return vfc43T{Kind: "labels", Tenant: strs[ix[0]], Label: strs2[ix[1]], Matchers: vfc43MatcherOpts[ix[2]], SplitMs: si, Start: int64(ix[4]) * si, Partial: ix[5] == 1}
 		}},
 		{name: "series:tenant x matchers x split x bucket x replica x partial", dims: []int{ns, len(vfc43MatcherOpts), 2, 3, 4, 2}, mk: func(ix []int) vfc43T {
 			si := []int64{1, 11}[ix[2]]
@@ -457,9 +459,12 @@ func vfc43Fingerprint(a, b vfc43T) (string, []string) {
 		}
 	}
 	if len(diff) >= 2 {
-		// a boundary between fields moved: possible only if a free-text field holds the separator
-		for _, s := range append(vfc43FreeText(a), vfc43FreeText(b)...) {
-			if strings.Contains(s, ":") {
+		// a boundary between key fields moved: possible only if a free-text field that is part of the key differs
+		// between the two requests and holds the separator in one of them
+		shift := map[string]map[string]bool{"range": {"tenant": true, "query": true, "engine": true, "replica_labels": true},
+			"labels": {"tenant": true, "label": true}, "series": {"tenant": true}}[a.Kind]
+		for i := range fa {
+			if fa[i][1] != fb[i][1] && shift[fa[i][0]] && (strings.Contains(fa[i][1], ":") || strings.Contains(fb[i][1], ":")) {
 				return a.Kind + ":unescaped-colon", diff
 			}
 		}
@@ -652,13 +657,13 @@ func TestVF_C43(t *testing.T) {
 	defer r.Finish()
 	thorough := r.Thorough()
 	sp := vfc43NewSpace(r.Seed(), thorough)
-	sp.rnd = r.N(150000, 4000000)
+	sp.rnd = r.N(80000, 3000000)
 	total := sp.exh + sp.rnd
 	var bl []string
 	for _, b := range sp.blocks {
 		bl = append(bl, fmt.Sprintf("%s (%d)", b.name, b.size()))
 	}
-	r.Rule("tuple id -> cacheable request (range/labels/series): bounded-exhaustive blocks over separator alphabets {a,:,1}^<=3 (thorough <=4) plus hand-picked strings for tenant/query/engine/label, all shard/replica/matcher/resolution options [" +
+	r.Rule("tuple id -> cacheable request (range/labels/series): bounded-exhaustive blocks over separator alphabets {a,:,1}^<=3 (thorough <=4; one length less for the query/label dimension of the wide blocks) plus hand-picked strings for tenant/query/engine/label, all shard/replica/matcher/resolution options [" +
 		strings.Join(bl, "; ") + "], then pseudo-random tuples over the adversarial alphabet; tenant resolved by the real tenant resolver (rejected tenants are skipped and counted); " +
 		"oracle: injectivity - two tuples with different canonical parameter tuples (replica labels as set without empty names, resolution by class, split bucket = start/interval) must not get the same real GenerateCacheKey; " +
 		"every 16th key additionally re-parsed at all other ':' positions into other tuples that are fed back to the real generator (ambiguity search); alternative keys of a range request must be primary keys of the same request at a finer step dividing the step; " +
@@ -719,7 +724,7 @@ func TestVF_C43(t *testing.T) {
 				} else {
 					seen[h] = uint32(id)
 				}
-				if tp.Kind == "range" {
+				if tp.Kind == "range" && id%4 == 0 {
 					// alternative keys
 					alts := gen.GenerateCacheKeyAlternatives(tp.Tenant, tp.request())
 					for _, ak := range alts {
